@@ -115,3 +115,20 @@ def gen_points(rng, n, geom_public, integer=False):
         arr = np.round(arr)
         arr[:, 1] = np.maximum(arr[:, 1], 0)
     return arr
+
+
+def delaying_weight(birth, pers, log=None, n=1.0):
+    """persistence weight that sleeps a data-dependent time and logs (pid, thread, start, end, tag) - used to make
+    parallel workers finish out of submission order and to observe which worker processed what"""
+    import os
+    import threading
+    import time
+    t0 = time.monotonic()
+    tag = float(birth[0]) if len(birth) else -1.0
+    ms = int(abs(tag) * 1000) % 7
+    time.sleep(0.004 * ms)
+    t1 = time.monotonic()
+    if log:
+        with open(log, "a") as f:
+            f.write("%d %d %.6f %.6f %r\n" % (os.getpid(), threading.get_ident(), t0, t1, tag))
+    return np.asarray(pers, float) ** n
